@@ -1,8 +1,9 @@
 From Coq Require Import Extraction ExtrOcamlBasic.
 From Common Require Import Bytes Drv.
 From Grandpa Require Import Tree Votes RoundSpec.
-From C20 Require Import Model.
+From C20 Require Import Model Graph.
 Extraction "model.ml" drv_b2n drv_n2b drv_z_of_n drv_n_of_z drv_nat_of_n drv_n_of_nat
   mkVote round_state_of import_flags participants in_domain cur_weight eq_weight weight
   threshold total tolerant possible has_supermajority depth chain
-  possible_go state_at round_state_go rs_eqb children.
+  possible_go state_at round_state_go rs_eqb children
+  rinit step_op observed.
